@@ -19,6 +19,7 @@ import (
 	tcpcoder "github.com/plgd-dev/go-coap/v3/tcp/coder"
 
 	"verif/vrt"
+	_ "verif/worlds/track" // C12 builds: every world runs under the pool lifecycle tracker
 )
 
 // Stream is the fake net.Conn.
